@@ -47,6 +47,8 @@ class ProgResult:
         self.kf_used = set()
         self.clang_mismatch = 0
         self.diff_keys = set()
+        self.refdiff = 0  # executions in which the C text disagrees with the reference model of the program (extra["ref_fn"])
+        self.refchecked = 0
 
     @property
     def compared(self):
@@ -57,6 +59,8 @@ class ProgResult:
             return "ilsyntax"
         if self.diff:
             return "diff"
+        if self.refdiff:
+            return "refdiff"
         if self.ilsort:
             return "ilsort"
         if self.defuse:
@@ -273,6 +277,16 @@ def run_differential(progs, base_il_defs: dict, base_c_subs: dict, nstates: int,
                 continue
             io = il_final(m, ops, st, p.exports)
             co = c_final(c, ops, st, p.exports)
+            ref_fn = p.extra.get("ref_fn")
+            if ref_fn is not None:
+                want = ref_fn(ops, st)
+                if want is not None:
+                    r.refchecked += 1
+                    bad = [(k, v, co.get(k)) for k, v in want.items() if co.get(k) != v]
+                    if bad:
+                        r.refdiff += 1
+                        if len(r.fail_states) < 3:
+                            r.fail_states.append((n, "refdiff", bad[:4], _st_brief(st)))
             d = diff_obs(co, io)
             if d:
                 r.diff += 1
